@@ -71,18 +71,26 @@ fn resolve(r: Ref) -> Option<Entity>
 // payloads, components, resources, canaries
 
 struct Payload(u32);
-impl Drop for Payload { fn drop(&mut self) { log(format!("drop p{}", self.0)); } }
+const SILENT: u32 = u32::MAX;
+impl Drop for Payload { fn drop(&mut self) { if self.0 != SILENT { log(format!("drop p{}", self.0)); } } }
 
 struct Pay<const N: usize>(Payload);
-struct Evt<const N: usize>(Payload);
+/// One Rust type per index is the payload of broadcasts and entity events *and* the reactive resource of that index: the
+/// crate keys its broadcast, entity-event and resource tables by `TypeId`, and only a shared type lets one table leak
+/// into another show (seeded P04). Field 0: the event payload (silent in a resource value); field 1: the resource value.
+struct Evt<const N: usize>(Payload, u32);
+impl<const N: usize> Evt<N>
+{
+    fn ev(pid: u32) -> Self { Evt(Payload(pid), 0) }
+    fn res(v: u32) -> Self { Evt(Payload(SILENT), v) }
+}
+impl<const N: usize> PartialEq for Evt<N> { fn eq(&self, other: &Self) -> bool { self.1 == other.1 } }
+impl<const N: usize> ReactResource for Evt<N> {}
 
 #[derive(PartialEq, Clone, Copy)]
 struct Comp<const N: usize>(u32);
 impl<const N: usize> ReactComponent for Comp<N> {}
 
-#[derive(PartialEq, Clone, Copy)]
-struct Rs<const N: usize>(u32);
-impl<const N: usize> ReactResource for Rs<N> {}
 
 struct Canary(usize);
 impl Drop for Canary { fn drop(&mut self) { log(format!("canary s{}", self.0)); } }
@@ -105,7 +113,7 @@ impl DynTrig
         match *self
         {
             DynTrig::Bc(ty) => if ty == 0 { go!(0, broadcast::<Evt<0>>()) } else { go!(1, broadcast::<Evt<1>>()) },
-            DynTrig::Res(ty) => if ty == 0 { go!(0, resource_mutation::<Rs<0>>()) } else { go!(1, resource_mutation::<Rs<1>>()) },
+            DynTrig::Res(ty) => if ty == 0 { go!(0, resource_mutation::<Evt<0>>()) } else { go!(1, resource_mutation::<Evt<1>>()) },
             DynTrig::Ins(ty) => if ty == 0 { go!(0, insertion::<Comp<0>>()) } else { go!(1, insertion::<Comp<1>>()) },
             DynTrig::Mut(ty) => if ty == 0 { go!(0, mutation::<Comp<0>>()) } else { go!(1, mutation::<Comp<1>>()) },
             DynTrig::Rem(ty) => if ty == 0 { go!(0, removal::<Comp<0>>()) } else { go!(1, removal::<Comp<1>>()) },
@@ -124,7 +132,7 @@ impl DynTrig
         match *self
         {
             DynTrig::Bc(ty) => if ty == 0 { go!(0, broadcast::<Evt<0>>()) } else { go!(1, broadcast::<Evt<1>>()) },
-            DynTrig::Res(ty) => if ty == 0 { go!(0, resource_mutation::<Rs<0>>()) } else { go!(1, resource_mutation::<Rs<1>>()) },
+            DynTrig::Res(ty) => if ty == 0 { go!(0, resource_mutation::<Evt<0>>()) } else { go!(1, resource_mutation::<Evt<1>>()) },
             DynTrig::Ins(ty) => if ty == 0 { go!(0, insertion::<Comp<0>>()) } else { go!(1, insertion::<Comp<1>>()) },
             DynTrig::Mut(ty) => if ty == 0 { go!(0, mutation::<Comp<0>>()) } else { go!(1, mutation::<Comp<1>>()) },
             DynTrig::Rem(ty) => if ty == 0 { go!(0, removal::<Comp<0>>()) } else { go!(1, removal::<Comp<1>>()) },
@@ -253,7 +261,7 @@ type EntReaders<'w, 's> = (
 );
 type Access<'w, 's> = (
     ReactiveMut<'w, 's, Comp<0>>, ReactiveMut<'w, 's, Comp<1>>,
-    ReactResMut<'w, Rs<0>>, ReactResMut<'w, Rs<1>>,
+    ReactResMut<'w, Evt<0>>, ReactResMut<'w, Evt<1>>,
     // A param with non-trivial validation (`valid 0|1` scenario lines empty / fill the match): the crate runs its
     // systems whether or not Bevy's `validate_param` holds, and never loses them.
     Populated<'w, 's, Entity, With<VMark>>,
@@ -428,34 +436,34 @@ fn interpret(c: &mut Commands, ctx: &mut Ctx, act: &SAct)
             if *pid % 2 == 0
             {
                 let mut rc = c.react();
-                if *ty == 0 { rc.reborrow().broadcast(Evt::<0>(Payload(*pid))); } else { rc.reborrow().broadcast(Evt::<1>(Payload(*pid))); }
+                if *ty == 0 { rc.reborrow().broadcast(Evt::<0>::ev(*pid)); } else { rc.reborrow().broadcast(Evt::<1>::ev(*pid)); }
             }
-            else if *ty == 0 { c.react().broadcast(Evt::<0>(Payload(*pid))); } else { c.react().broadcast(Evt::<1>(Payload(*pid))); }
+            else if *ty == 0 { c.react().broadcast(Evt::<0>::ev(*pid)); } else { c.react().broadcast(Evt::<1>::ev(*pid)); }
         }
         SAct::EntityEvent(r, ty, pid) =>
         {
             let Some(e) = resolve(*r) else { return };
             log(format!("send p{pid}"));
-            if *ty == 0 { c.react().entity_event(e, Evt::<0>(Payload(*pid))); } else { c.react().entity_event(e, Evt::<1>(Payload(*pid))); }
+            if *ty == 0 { c.react().entity_event(e, Evt::<0>::ev(*pid)); } else { c.react().entity_event(e, Evt::<1>::ev(*pid)); }
         }
         SAct::ResMut(ty) =>
         {
-            if *ty == 0 { c.react().trigger_resource_mutation::<Rs<0>>(); } else { c.react().trigger_resource_mutation::<Rs<1>>(); }
+            if *ty == 0 { c.react().trigger_resource_mutation::<Evt<0>>(); } else { c.react().trigger_resource_mutation::<Evt<1>>(); }
         }
         SAct::ResSet(ty, v, neq) =>
         {
             let Ctx::Full(acc) = ctx else { log("unsupported-in-exclusive".into()); return };
             if *neq
             {
-                let old = if *ty == 0 { acc.2.set_if_neq(c, Rs::<0>(*v)).map(|x| x.0) } else { acc.3.set_if_neq(c, Rs::<1>(*v)).map(|x| x.0) };
+                let old = if *ty == 0 { acc.2.set_if_neq(c, Evt::<0>::res(*v)).map(|x| x.1) } else { acc.3.set_if_neq(c, Evt::<1>::res(*v)).map(|x| x.1) };
                 log(format!("ret {}", opt(old)));
             }
-            else if *ty == 0 { acc.2.get_mut(c).0 = *v; } else { acc.3.get_mut(c).0 = *v; }
+            else if *ty == 0 { acc.2.get_mut(c).1 = *v; } else { acc.3.get_mut(c).1 = *v; }
         }
         SAct::ResRead(ty) =>
         {
             let Ctx::Full(acc) = ctx else { log("unsupported-in-exclusive".into()); return };
-            let v = if *ty == 0 { acc.2.0 } else { acc.3.0 };
+            let v = if *ty == 0 { acc.2.1 } else { acc.3.1 };
             log(format!("ret {v}"));
         }
         SAct::Insert(r, ty, v) =>
@@ -483,7 +491,7 @@ fn interpret(c: &mut Commands, ctx: &mut Ctx, act: &SAct)
         SAct::ResNr(ty, v) =>
         {
             let Ctx::Full(acc) = ctx else { log("unsupported-in-exclusive".into()); return };
-            if *ty == 0 { acc.2.get_noreact().0 = *v; } else { acc.3.get_noreact().0 = *v; }
+            if *ty == 0 { acc.2.get_noreact().1 = *v; } else { acc.3.get_noreact().1 = *v; }
         }
         SAct::Mutate(r, ty, v) =>
         {
@@ -761,13 +769,13 @@ fn direct_send(world: &mut World, act: &SAct)
         SAct::Broadcast(ty, pid) =>
         {
             log(format!("send p{pid}"));
-            if *ty == 0 { world.broadcast(Evt::<0>(Payload(*pid))); } else { world.broadcast(Evt::<1>(Payload(*pid))); }
+            if *ty == 0 { world.broadcast(Evt::<0>::ev(*pid)); } else { world.broadcast(Evt::<1>::ev(*pid)); }
         }
         SAct::EntityEvent(r, ty, pid) =>
         {
             let Some(e) = resolve(*r) else { return };
             log(format!("send p{pid}"));
-            if *ty == 0 { world.entity_event(e, Evt::<0>(Payload(*pid))); } else { world.entity_event(e, Evt::<1>(Payload(*pid))); }
+            if *ty == 0 { world.entity_event(e, Evt::<0>::ev(*pid)); } else { world.entity_event(e, Evt::<1>::ev(*pid)); }
         }
         _ => {}
     }
@@ -847,7 +855,7 @@ fn ty_of(id: TypeId, which: &str) -> Option<usize>
 {
     let c = [TypeId::of::<Comp<0>>(), TypeId::of::<Comp<1>>()];
     let e = [TypeId::of::<Evt<0>>(), TypeId::of::<Evt<1>>()];
-    let r = [TypeId::of::<Rs<0>>(), TypeId::of::<Rs<1>>()];
+    let r = [TypeId::of::<Evt<0>>(), TypeId::of::<Evt<1>>()];
     let arr = match which { "c" => c, "e" => e, _ => r };
     arr.iter().position(|x| *x == id)
 }
@@ -869,7 +877,7 @@ fn quiescent(world: &mut World)
     let qc = format!("qc {}", named.iter().map(|e| format!("{}/{}",
         opt(world.get::<React<Comp<0>>>(*e).map(|c| c.get().0)),
         opt(world.get::<React<Comp<1>>>(*e).map(|c| c.get().0)))).collect::<Vec<_>>().join(","));
-    let qr = format!("qr {},{}", world.react_resource::<Rs<0>>().0, world.react_resource::<Rs<1>>().0);
+    let qr = format!("qr {},{}", world.react_resource::<Evt<0>>().1, world.react_resource::<Evt<1>>().1);
     log(qa); log(qc); log(qr);
 
     #[cfg(feature = "hooks")]
@@ -964,19 +972,19 @@ fn top_acts(world: &mut World, t: usize, script: Vec<SAct>)
             SAct::ResMut(ty) =>
             {
                 log(plus);
-                if ty == 0 { world.trigger_resource_mutation::<Rs<0>>(); } else { world.trigger_resource_mutation::<Rs<1>>(); }
+                if ty == 0 { world.trigger_resource_mutation::<Evt<0>>(); } else { world.trigger_resource_mutation::<Evt<1>>(); }
                 log(minus);
                 return
             }
             SAct::ResNr(ty, v) =>
             {
-                if ty == 0 { world.react_resource_mut_noreact::<Rs<0>>().0 = v; } else { world.react_resource_mut_noreact::<Rs<1>>().0 = v; }
+                if ty == 0 { world.react_resource_mut_noreact::<Evt<0>>().1 = v; } else { world.react_resource_mut_noreact::<Evt<1>>().1 = v; }
                 log(plus); log(minus);
                 return
             }
             SAct::ResRead(ty) =>
             {
-                let v = if ty == 0 { world.react_resource::<Rs<0>>().0 } else { world.react_resource::<Rs<1>>().0 };
+                let v = if ty == 0 { world.react_resource::<Evt<0>>().1 } else { world.react_resource::<Evt<1>>().1 };
                 log(format!("ret {v}"));
                 log(plus); log(minus);
                 return
@@ -1080,14 +1088,14 @@ fn run_top(world: &mut World, t: usize, op: &STop)
         STop::WBroadcast(ty, pid) =>
         {
             log(format!("send p{pid}"));
-            if *ty == 0 { world.broadcast(Evt::<0>(Payload(*pid))); } else { world.broadcast(Evt::<1>(Payload(*pid))); }
+            if *ty == 0 { world.broadcast(Evt::<0>::ev(*pid)); } else { world.broadcast(Evt::<1>::ev(*pid)); }
         }
         STop::WEntityEvent(r, ty, pid) =>
         {
             if let Some(e) = resolve(*r)
             {
                 log(format!("send p{pid}"));
-                if *ty == 0 { world.entity_event(e, Evt::<0>(Payload(*pid))); } else { world.entity_event(e, Evt::<1>(Payload(*pid))); }
+                if *ty == 0 { world.entity_event(e, Evt::<0>::ev(*pid)); } else { world.entity_event(e, Evt::<1>::ev(*pid)); }
             } else { top_acts(world, t, vec![]) }
         }
         STop::SigPrepare(r) =>
@@ -1179,8 +1187,8 @@ fn run_scenario(path: &str)
     let result = std::panic::catch_unwind(std::panic::AssertUnwindSafe(|| {
         let mut app = App::new();
         app.add_plugins(ReactPlugin);
-        app.insert_react_resource(Rs::<0>(0));
-        app.insert_react_resource(Rs::<1>(0));
+        app.insert_react_resource(Evt::<0>::res(0));
+        app.insert_react_resource(Evt::<1>::res(0));
         app.init_resource::<EntityReactionProbe>();
         let vmark = app.world_mut().spawn(VMark).id();
         for (k, d) in sc.wrs.iter().enumerate()
